@@ -142,6 +142,9 @@ def random_composition(rng, depth=3):
         ("flip", lambda: T.KDRandomHorizontalFlip(p=0.5)),
         ("noise", lambda: T.KDAdditiveGaussianNoise(std=0.1)),
         ("rnd-noise", lambda: T.KDRandomAdditiveGaussianNoise(std=0.1, p=0.6)),
+        ("rnd-noise-p1", lambda: T.KDRandomAdditiveGaussianNoise(std=0.1, p=1.0)),     # boundary probabilities: always / never applied
+        ("rnd-jitter-p1", lambda: T.KDRandomColorJitter(p=1.0, brightness=0.4, contrast=0.4, saturation=0.2, hue=0.1)),
+        ("rnd-noise-p0", lambda: T.KDRandomAdditiveGaussianNoise(std=0.1, p=0.0)),
         ("threshold", lambda: T.KDRandomThreshold(threshold=0.4, threshold_std=0.2, p=0.6)),
         ("jitter", lambda: T.KDColorJitter(0.4, 0.4, 0.2, 0.1)),
         ("rnd-jitter", lambda: T.KDRandomColorJitter(p=0.7, brightness=0.4, contrast=0.4, saturation=0.2, hue=0.1)),
@@ -160,7 +163,8 @@ def random_composition(rng, depth=3):
             return "compose[" + ",".join(k[0] for k in kids) + "]", T.KDComposeTransform([k[1] for k in kids])
         if kind == "apply":
             n, t = go(d - 1)
-            return f"apply({n})", T.KDRandomApply(transform=t, p=0.7)
+            pa = rng.choice([0.7, 0.7, 1.0])
+            return f"apply{pa}({n})", T.KDRandomApply(transform=t, p=pa)
         if kind == "patchwise":
             n, t = go(d - 1)
             return f"patchwise({n})", T.PatchwiseTransform(patch_size=16, transform=t)
